@@ -276,6 +276,7 @@ def asm_sig(lib, syms):
 def run(chk):
     chk.map(lambda i: case(chk, i), range(chk.pick(40, 400)), budget_s=chk.pick(500, 3000))
     chk.map(lambda i: cross_case(chk, i), range(chk.pick(30, 300)), budget_s=chk.pick(200, 900))
+    chk.map(lambda i: cxx_case(chk, i), range(chk.pick(16, 240)), budget_s=chk.pick(300, 1500))
     return chk.finish(
         rule="case = (generated C library, option set): functions over every scalar kind, _Bool, char signedness, enums, typedefs, pointers with "
              "const and non-const pointees, array parameters, by-value structs/unions shaped to straddle the SysV classes (all-int, all-float, "
@@ -283,8 +284,222 @@ def run(chk):
              "globals const and non-const. One executable links clang's object with a Rust caller generated from the model: every argument "
              "value is fixed by the orchestrator, the C callee prints what arrived, the Rust side prints returns, globals are read and written "
              "on both sides; declared parameter/return kinds, signedness and widths are recovered from the bindings through trait inference "
-             "on the function item and compared with C's; non-trivial = at least one call went through.",
+             "on the function item and compared with C's; non-trivial = at least one call went through. "
+             "C++ case = (generated class library: const / non-const / static / virtual / overloaded methods, overloaded constructors, "
+             "destructors, single inheritance, 0-2 namespaces, by-value aggregates in register and memory class as parameters and returns, "
+             "option set): the symbol of every member function is taken from clang++'s object (llvm-nm, demangled signature), each binding is "
+             "located by its link_name, and a Rust driver (once through the extern fns, once through the generated wrapper methods) repeats the "
+             "qualified calls of a C++ driver: the callee prints receiver fields and arguments, the drivers print returns; transcripts must "
+             "agree step by step; bindings naming a symbol clang++ did not emit, two bindings on one symbol, a wrong receiver constness "
+             "or a receiver on a static method are violations.",
         assumptions=["calls are executed on the x86_64 SysV host only; for apple-darwin / windows-msvc (cdecl, stdcall, fastcall) / i686 targets the "
                      "symbol each binding resolves to is predicted from (abi, link_name, name) with a small model of LLVM's platform mangling "
                      "and compared with `clang --target -c` + llvm-nm, per declaration",
-                     "noreturn functions and C++ methods are not called in this tier"])
+                     "noreturn functions are not called; C++ member functions are called non-virtually (the binding names one function); "
+                     "objects are moved by memcpy between construction and use, as the generated `new()` wrappers do"])
+
+
+CXX_OPTSETS = [("default", []), ("namespaces", ["--enable-cxx-namespaces"]), ("merge-sort", ["--merge-extern-blocks", "--sort-semantically"]),
+               ("ns-merge", ["--enable-cxx-namespaces", "--merge-extern-blocks"]), ("old-target", ["--rust-target", "1.70"]),
+               ("no-layout", ["--no-layout-tests", "--with-derive-default"])]
+
+
+def cxx_case(chk, i):
+    """C++ classes: every member function the bindings declare reaches its mangled symbol with the right receiver and arguments
+    (transcript of a Rust driver == transcript of a C++ driver making the same qualified calls)"""
+    from .. import hcxx
+    rng = chk.rng("cxx", i)
+    lib = hcxx.generate(rng)
+    d = chk.dir("k%d" % (i % 32))
+    for f in os.listdir(d):
+        try:
+            os.unlink(os.path.join(d, f))
+        except OSError:
+            pass
+    hdr = write(os.path.join(d, "h.hpp"), hcxx.header(lib))
+    isrc = write(os.path.join(d, "impl.cpp"), hcxx.impl(lib))
+    dsrc = write(os.path.join(d, "driver.cpp"), hcxx.driver_cpp(lib))
+    obj = os.path.join(d, "impl.o")
+    name = "cxx-%d" % i
+    rc, so, se, _ = sh(["clang++", "-std=c++14", "-w", "-O1", "-c", isrc, "-o", obj, "-I", d], timeout=120)
+    if rc != 0:
+        return Verdict(INCONCLUSIVE, name, "clang++ rejects the generated class library: " + se[:500])
+    rc, so, se, _ = sh(["clang++", "-std=c++14", "-w", "-O1", dsrc, obj, "-o", os.path.join(d, "driver"), "-I", d], timeout=120)
+    if rc != 0:
+        return Verdict(INCONCLUSIVE, name, "clang++ rejects the generated driver: " + se[:500])
+    rc, want, se, _ = sh([os.path.join(d, "driver")], timeout=60)
+    if rc != 0:
+        return Verdict(INCONCLUSIVE, name, "C++ driver failed rc=%s" % rc)
+    rc, nm, se, _ = sh(["llvm-nm", "-g", "--defined-only", obj], timeout=60)
+    rc2, nmd, se, _ = sh(["llvm-nm", "-g", "--defined-only", "-C", obj], timeout=60)
+    mang = [l.split()[-1] for l in nm.splitlines() if l.strip()]
+    dem = [l.split(None, 2)[-1] for l in nmd.splitlines() if l.strip()]
+    if len(mang) != len(dem):
+        return Verdict(INCONCLUSIVE, name, "llvm-nm listings differ in length")
+    by_dem = {}
+    for m_, d_ in zip(mang, dem):
+        by_dem.setdefault(d_, []).append(m_)
+    defined = set(mang)
+    symbol = {}
+    for k in lib.classes:
+        for mi, m in enumerate(k.methods):
+            cands = by_dem.get(hcxx.demangled(k, m), [])
+            if m.kind == "ctor":
+                cands = [c for c in cands if "C1E" in c]
+            elif m.kind == "dtor":
+                cands = [c for c in cands if "D1Ev" in c]
+            if len(cands) != 1:
+                return Verdict(INCONCLUSIVE, name, "cannot identify the symbol of %s (candidates %s)" % (hcxx.demangled(k, m), cands))
+            symbol[(k.qual, mi)] = cands[0]
+    out = []
+    sets = [CXX_OPTSETS[0]] + chk.rng("cxxopts", i).sample(CXX_OPTSETS[1:], chk.pick(2, 4))
+    for oname, flags in sets:
+        cname = "%s-%s" % (name, oname)
+        b = os.path.join(d, "b_%s.rs" % oname)
+        rc, so, se, _ = sh([build.BINDGEN, hdr] + flags + ["-o", b, "--", "-x", "c++", "-std=c++14"], timeout=120, cpu=100)
+        files = {"h.hpp": open(hdr).read(), "impl.cpp": open(isrc).read(), "driver.cpp": open(dsrc).read(), "flags.txt": " ".join(flags)}
+        if rc != 0:
+            out.append(Verdict(INCONCLUSIVE, cname, "bindgen failed: " + se[-300:]))
+            continue
+        inv = inventory(b)
+        if "error" in inv:
+            out.append(Verdict(VIOLATED, cname, "bindings do not parse: " + inv["error"], files=files))
+            continue
+        files["bindings.rs"] = open(b).read()
+        ext = {}          # symbol -> (path, sig, name)
+        dangling = []
+        for it in inv["items"]:
+            if it["kind"] != "extern_block":
+                continue
+            for m in it["members"]:
+                if m["kind"] != "foreign_fn":
+                    continue
+                ln = m.get("link_name")
+                sym = ln[1:] if ln and ln.startswith("\x01") else (ln or m["name"])
+                if sym not in defined:
+                    dangling.append("%s -> %s" % (m["name"], sym))
+                ext.setdefault(sym, []).append(("b" + it["module"][4:] + "::" + m["name"], m["sig"], m["name"], it["abi"]))
+        impls = [it for it in inv["items"] if it["kind"] == "impl" and it.get("trait") is None]
+        structs = {}
+        for it in inv["items"]:
+            if it["kind"] == "struct":
+                structs[("b" + it["module"][4:] + "::" + it["name"])] = it
+        problems = []
+        if dangling:
+            problems.append("bindings refer to symbols clang++ did not emit: %s" % dangling[:6])
+        dup = {s_: v for s_, v in ext.items() if len(v) > 1}
+        if dup:
+            problems.append("several bindings name the same symbol: %s" % {s_: [x[2] for x in v] for s_, v in list(dup.items())[:3]})
+
+        def resolve(k, mi):
+            sym = symbol[(k.qual, mi)]
+            if sym not in ext:
+                return None
+            path, sig, nm_, abi = ext[sym][0]
+            # the class type: from the constructor's `this` parameter
+            ty = None
+            for ci, cm in enumerate(k.methods):
+                if cm.kind == "ctor" and symbol[(k.qual, ci)] in ext:
+                    mm = re.search(r"this : \* mut ([^,)]+?) [,)]", ext[symbol[(k.qual, ci)]][0][1])
+                    if mm:
+                        t_ = mm.group(1).replace(" ", "")
+                        ty = "b::" + t_
+                        break
+            if ty is None:
+                return None
+            wrapper = None
+            for im in impls:
+                if ("b" + im["module"][4:] + "::" + im["self_ty"].replace(" ", "")) == ty or (im["self_ty"].replace(" ", "") == ty.split("::")[-1]):
+                    for seg in im["tokens"].split("pub unsafe fn ")[1:]:
+                        if re.search(r"\b%s \(" % re.escape(nm_), seg.split("{", 1)[1] if "{" in seg else ""):
+                            wrapper = seg.split(" ", 1)[0].split("(")[0].strip()
+            pods = {}
+            for p in lib.pods:
+                pods[p.name] = "b::" + ("root::" if "--enable-cxx-namespaces" in flags else "") + p.name
+            return {"ext": path, "wrapper": wrapper, "ty": ty, "fields": {}, "pods": pods, "sig": sig, "abi": abi}
+
+        obs = {"cxx_libraries_x_optsets": 1, "cxx_member_functions": sum(len(k.methods) for k in lib.classes), "cxx_bound": 0, "cxx_unbound": 0,
+               "cxx_calls_compared": 0, "cxx_receiver_constness_checked": 0}
+        # receiver constness and ABI
+        for k in lib.classes:
+            for mi, m in enumerate(k.methods):
+                r = resolve(k, mi)
+                if r is None:
+                    obs["cxx_unbound"] += 1
+                    continue
+                obs["cxx_bound"] += 1
+                if r["abi"] != "C":
+                    problems.append("%s declared with abi %s" % (hcxx.demangled(k, m), r["abi"]))
+                if m.kind == "method" and not m.static and not m.virtual:
+                    obs["cxx_receiver_constness_checked"] += 1
+                    want_recv = "* const" if m.const else "* mut"
+                    if ("this : %s " % want_recv) not in r["sig"]:
+                        problems.append("%s: receiver should be `%s` in `%s`" % (hcxx.demangled(k, m), want_recv, r["sig"][:120]))
+                if m.static and "this :" in r["sig"]:
+                    problems.append("static %s declared with a receiver" % hcxx.demangled(k, m))
+        if problems:
+            out.append(Verdict(VIOLATED, cname, "\n".join(problems[:6]), files=files, obs=obs))
+            continue
+        both = []
+        for use_wrappers in (False, True):
+            src, skipped = hcxx.driver_rs(lib, b, resolve, use_wrappers)
+            prs = write(os.path.join(d, "drv_%s_%d.rs" % (oname, use_wrappers)), src)
+            exe = os.path.join(d, "drv_%s_%d" % (oname, use_wrappers))
+            rc, so, se, _ = sh(["rustc"] + RUSTC_FLAGS + [prs, "-C", "link-arg=" + obj, "-C", "link-arg=-lstdc++", "-o", exe], timeout=300)
+            files["driver_%d.rs" % use_wrappers] = src
+            if rc != 0:
+                locs = re.findall(r"^error[^\n]*\n\s*--> (\S+?):\d+:\d+", se, re.M)
+                if "undefined symbol" in se or "undefined reference" in se:
+                    both.append(("violation", "link failure: " + se[-600:]))
+                elif any(l.endswith("/b_%s.rs" % oname) for l in locs):
+                    both.append(("inconclusive", "bindings do not compile (C01's): " + se[:400]))
+                else:
+                    both.append(("inconclusive", "driver does not compile (harness): " + se[:900]))
+                continue
+            rc, got, se, _ = sh([exe], timeout=60)
+            files["got_%d.txt" % use_wrappers] = got[-8000:]
+            files["want.txt"] = want[-8000:]
+            if rc != 0:
+                both.append(("violation", "calling through the bindings crashed (rc=%s) after: %s" % (rc, got.splitlines()[-2:] if got else "")))
+                continue
+            wl, gl = want.splitlines(), got.splitlines()
+            # steps whose function has no binding are skipped on the Rust side: drop those steps from the expectation
+            unb = set()
+            for (q, mi) in skipped:
+                unb.add((q, mi))
+
+            def steps(lines):
+                res, cur = [], None
+                for l in lines:
+                    if l.startswith("STEP "):
+                        cur = [l]
+                        res.append(cur)
+                    elif cur is not None:
+                        cur.append(l)
+                return res
+            ws, gs = steps(wl), steps(gl)
+            wmap = {s_[0]: s_[1:] for s_ in ws}
+            gmap = {s_[0]: s_[1:] for s_ in gs}
+            bad = []
+            for key, wv in wmap.items():
+                gv = gmap.get(key)
+                if gv is None:
+                    # a whole object whose constructor is unbound is legitimately absent
+                    continue
+                if gv == ["UNBOUND"]:
+                    continue
+                obs["cxx_calls_compared"] += 1
+                if gv != wv:
+                    bad.append("%s: C++ driver saw %s, Rust driver saw %s" % (key, wv, gv))
+            if bad:
+                both.append(("violation", "\n".join(bad[:4])))
+            else:
+                both.append(("held", ""))
+        kinds = [x[0] for x in both]
+        if "violation" in kinds:
+            out.append(Verdict(VIOLATED, cname, [x[1] for x in both if x[0] == "violation"][0][:1800], files=files, obs=obs))
+        elif "inconclusive" in kinds:
+            out.append(Verdict(INCONCLUSIVE, cname, [x[1] for x in both if x[0] == "inconclusive"][0][:900], obs=obs))
+        else:
+            out.append(Verdict(HELD, cname, obs=obs, nontrivial=obs["cxx_calls_compared"] >= 2, key=cname))
+    return out
